@@ -315,6 +315,10 @@ pub(crate) mod alloc {
                 alpha,
                 beta,
                 gamma,
+                range_sep_challenge,
+                logic_sep_challenge,
+                fixed_base_sep_challenge,
+                var_base_sep_challenge,
                 z_challenge,
                 v_challenge,
                 v_w_challenge,
@@ -629,6 +633,10 @@ pub(crate) mod alloc {
                 alpha,
                 beta,
                 gamma,
+                range_sep_challenge,
+                logic_sep_challenge,
+                fixed_base_sep_challenge,
+                var_base_sep_challenge,
                 z_challenge,
                 v_challenge,
                 v_w_challenge,
